@@ -41,6 +41,9 @@ def build_schema(case):
     cur = S['std']
     if case['how'] == 'direct':
         return SE.target_from_sdl(case['texts'][-1])
+    if case['how'] == 'ddl':
+        # an explicit DDL script: the schema is not built by the SDL planner under test
+        return SE.run_ddl(cur, case['texts'][-1])
     for t in case['texts']:
         cur = SE.migrate(cur, t)
     # DDL issued from a session whose current module differs from the module
@@ -126,10 +129,17 @@ def _strategy():
             # declarations tied by weak dependencies: the printed SDL has to be orderable again
             G.add_weak_family(s, draw)
         fam_edit = None
-        if draw(st.integers(0, 3)) == 0:
+        if draw(st.integers(0, 2)) == 0:
             # a structural family (gen/families.py); sometimes reached through one of its edits
             from vp_harness.gen import families as F
-            fam = F.draw_family(draw, s['modules'])
+            if draw(st.integers(0, 3)) == 0:
+                fam = F.cross_module_backlink(draw, draw(st.sampled_from(sorted(s['modules']))))
+            else:
+                fam = F.draw_family(draw, s['modules'])
+            if fam.get('ddl') and draw(st.integers(0, 3)) > 0:
+                case = dict(how='ddl', texts=[fam['ddl']], lang=draw(st.sampled_from(['ddl', 'sdl'])),
+                            session=draw(st.sampled_from(SESSION_MODULES)), family='family:' + fam['name'])
+                return case
             s = F.add(s, fam['A'], draw)
             if fam['B'] and draw(st.booleans()):
                 fam_edit = (fam, draw(st.sampled_from(sorted(fam['B']))))
